@@ -22,12 +22,28 @@ type c02Frame struct {
 	closing bool
 }
 
+// c02PayloadBase > 0: payloads of that many bytes (+ the frame index) instead of i+1 - a receive buffer
+// holds up to 20480 bytes, more than the 16640 a default sender ever puts into one message
+var c02PayloadBase int
+
+// c02hx prints short byte strings in full and long ones as length + checksum.
+func c02hx(b []byte) string {
+	if len(b) <= 64 {
+		return fmt.Sprintf("%x", b)
+	}
+	var h uint64 = 1469598103934665603
+	for _, x := range b {
+		h = (h ^ uint64(x)) * 1099511628211
+	}
+	return fmt.Sprintf("[%d bytes, fnv %x]", len(b), h)
+}
+
 func c02Frames(n int) []c02Frame {
 	fs := make([]c02Frame, n)
 	for i := 0; i < n; i++ {
-		p := make([]byte, i+1)
+		p := make([]byte, c02PayloadBase+i+1)
 		for j := range p {
-			p[j] = byte(16*i + j + 1)
+			p[j] = byte(16*i + j + j/251 + 1)
 		}
 		fs[i] = c02Frame{seqOff: i, payload: p, closing: i == n-1}
 	}
@@ -47,7 +63,7 @@ type c02Inst struct {
 }
 
 func newC02Inst(base uint64) *c02Inst {
-	in := &c02Inst{sb: NewStreamBuffer(), base: base, shared: make([]byte, 64), closedAt: -1}
+	in := &c02Inst{sb: NewStreamBuffer(), base: base, shared: make([]byte, 64+c02PayloadBase), closedAt: -1}
 	in.sb.nextRecvSeq = base
 	return in
 }
@@ -76,7 +92,7 @@ func (in *c02Inst) deliver(f c02Frame) {
 
 func (in *c02Inst) drain() {
 	for in.sb.buf.buf.Len() > 0 {
-		b := make([]byte, 3)
+		b := make([]byte, 3+c02PayloadBase/5)
 		n, err := in.sb.Read(b)
 		if err != nil {
 			in.err = fmt.Sprintf("Read returned %v with %d bytes buffered", err, in.sb.buf.buf.Len())
@@ -92,7 +108,7 @@ func (in *c02Inst) canon() string {
 		seqs = append(seqs, int(f.Seq-in.base))
 	}
 	sort.Ints(seqs)
-	return fmt.Sprintf("next=%d heap=%v got=%x", in.sb.nextRecvSeq-in.base, seqs, append(append([]byte{}, in.out...), in.sb.buf.buf.Bytes()...))
+	return fmt.Sprintf("next=%d heap=%v got=%s", in.sb.nextRecvSeq-in.base, seqs, c02hx(append(append([]byte{}, in.out...), in.sb.buf.buf.Bytes()...)))
 }
 
 func c02Expected(fs []c02Frame) []byte {
@@ -136,6 +152,8 @@ func init() {
 	vx.Register(&vx.Scenario{Name: "sbuf.orders", Prop: "C02", Run: func(c *vx.Ctx) *vx.Report {
 		n := c.PI("n", 5)
 		rep := &vx.Report{Job: c.Job, Engine: "enum", Outcomes: map[string]int64{}, Exhaustive: true}
+		c02PayloadBase = c.PI("plen", 0)
+		defer func() { c02PayloadBase = 0 }()
 		fs := c02Frames(n)
 		want := c02Expected(fs)
 		distinct := map[string]bool{}
@@ -151,7 +169,7 @@ func init() {
 						// prefix property at every moment: what was handed over is a prefix of the expected stream
 						got := append(append([]byte{}, in.out...), in.sb.buf.buf.Bytes()...)
 						if !bytes.HasPrefix(want, got) {
-							in.err = fmt.Sprintf("after %d deliveries the readable bytes %x are not a prefix of %x", k+1, got, want)
+							in.err = fmt.Sprintf("after %d deliveries the readable bytes %s are not a prefix of %s", k+1, c02hx(got), c02hx(want))
 						}
 						if in.err != "" {
 							break
@@ -161,7 +179,7 @@ func init() {
 					rep.Executions++
 					rep.Transitions += int64(n)
 					if in.err == "" && !bytes.Equal(in.out, want) {
-						in.err = fmt.Sprintf("read %x want %x", in.out, want)
+						in.err = fmt.Sprintf("read %s want %s", c02hx(in.out), c02hx(want))
 					}
 					if in.err == "" && in.closedAt != n-1 {
 						in.err = fmt.Sprintf("toBeClosed reported by delivery %d, expected exactly by the last one (%d)", in.closedAt, n-1)
@@ -371,6 +389,8 @@ func init() {
 			return []vx.Job{
 				{Scenario: "sbuf.orders", Params: vx.P("n", "6"), Weight: 5},
 				{Scenario: "sbuf.orders", Params: vx.P("n", "4"), Weight: 1},
+				{Scenario: "sbuf.orders", Params: vx.P("n", "3", "plen", "20000"), Weight: 2},
+				{Scenario: "sbuf.orders", Params: vx.P("n", "3", "plen", "16639"), Weight: 2},
 				{Scenario: "sbuf.bfs", Params: vx.P("n", "7"), Weight: 3},
 				{Scenario: "sbuf.sched", Params: vx.P("n", "3"), Bound: -1, BudgetS: 100, Weight: 4},
 				{Scenario: "sbuf.sched", Params: vx.P("n", "3", "crosscheck", "1"), Bound: 2, BudgetS: 100, Weight: 4},
@@ -379,6 +399,8 @@ func init() {
 		return []vx.Job{
 			{Scenario: "sbuf.orders", Params: vx.P("n", "8"), Weight: 9},
 			{Scenario: "sbuf.orders", Params: vx.P("n", "7"), Weight: 5},
+			{Scenario: "sbuf.orders", Params: vx.P("n", "4", "plen", "20000"), Weight: 5},
+			{Scenario: "sbuf.orders", Params: vx.P("n", "4", "plen", "16638"), Weight: 5},
 			{Scenario: "sbuf.bfs", Params: vx.P("n", "10"), Weight: 5},
 			{Scenario: "sbuf.sched", Params: vx.P("n", "3"), Bound: -1, BudgetS: 900, Weight: 4},
 			{Scenario: "sbuf.sched", Params: vx.P("n", "4"), Bound: 3, BudgetS: 900, Weight: 6},
